@@ -219,13 +219,68 @@ def run_scale(wdir):
     return dict(status="violation" if viol else "ok", key=None, violations=viol, info=dict(scale="delete of 1000 ids in one call"))
 
 
+def run_scale2(wdir):
+    """A longer history with sources larger than the importer's peek window (checklines + 1 = 11 items): update fed lazily with
+    14 merged features from merge() (which takes their ids from the object's counters), update fed with a one-shot generator
+    of 13 features, then an update with an id-less feature, whose key must be new."""
+    _clean(wdir)
+    lines = ["c1\ts\tgene\t1\t9000\t.\t+\t.\tID=g1", "c1\ts\tmRNA\t1\t9000\t.\t+\t.\tID=m1;Parent=g1",
+             "c1\ts\texon\t8000\t8010\t.\t+\t.\tParent=m1"]                      # the id-less one becomes exon_1
+    for i in range(14):
+        lines.append("c1\ts\texon\t%d\t%d\t.\t+\t.\tID=a%d;Parent=m1" % (100 * i + 1, 100 * i + 30, i))
+        lines.append("c1\ts\texon\t%d\t%d\t.\t+\t.\tID=b%d;Parent=m1" % (100 * i + 20, 100 * i + 50, i))
+    path = os.path.join(wdir, "s2.db")
+    db = gffutils.create_db(dbutil.write_text(wdir, "s2.gff", "\n".join(lines) + "\n"), path, verbose=False)
+    viol = []
+
+    def ids():
+        return [r[0] for r in dbutil.canon(path)["features"]]
+
+    try:
+        keys0 = ids()
+        pairs = [db[x] for i in range(14) for x in ("a%d" % i, "b%d" % i)]
+        db.update(db.merge(pairs), make_backup=False, verbose=False)            # a generator, consumed by the importer
+        keys1 = ids()
+        merged = [k for k in keys1 if k not in keys0]
+        ext = sorted((db[k].start, db[k].end) for k in merged)
+        if len(merged) != 14 or ext != [(100 * i + 1, 100 * i + 50) for i in range(14)]:
+            viol.append(dict(kind="features-differ-from-model", sig=dict(scale=True, step="update(merge(...))"),
+                             detail=dict(new_keys=merged, extents=ext[:4], expected="14 merged exons 1..50, 101..150, ...")))
+        new = ["c2\ts\tgene\t%d\t%d\t.\t-\t.\tID=n%d" % (10 * i + 1, 10 * i + 5, i) for i in range(13)]
+        db.update((feature_from_line(t) for t in new), make_backup=False, verbose=False)      # one-shot, longer than the peek window
+        keys2 = ids()
+        lost = [("n%d" % i) for i in range(13) if ("n%d" % i) not in keys2]
+        if lost or len(keys2) != len(keys1) + 13:
+            viol.append(dict(kind="features-differ-from-model", sig=dict(scale=True, step="update(generator of 13)"),
+                             detail=dict(missing=lost, n_before=len(keys1), n_after=len(keys2))))
+        p = dbutil.write_text(wdir, "last.gff", "c1\ts\texon\t8500\t8510\t.\t+\t.\tParent=m1\n")
+        try:
+            db.update(p, make_backup=False, verbose=False)
+            keys3 = ids()
+            fresh = [k for k in keys3 if k not in keys2]
+            if len(fresh) != 1 or len(keys3) != len(keys2) + 1 or (db[fresh[0]].start, db[fresh[0]].end) != (8500, 8510):
+                viol.append(dict(kind="generated-key-equals-a-key-handed-out-earlier", sig=dict(scale=True),
+                                 detail=dict(new_keys=fresh, n_before=len(keys2), n_after=len(keys3), merged_keys=merged)))
+            if (db["exon_1"].start, db["exon_1"].end) != (8000, 8010):
+                viol.append(dict(kind="features-differ-from-model", sig=dict(scale=True, step="earlier id-less feature changed"), detail={}))
+        except Exception as e:
+            viol.append(dict(kind="generated-key-equals-a-key-handed-out-earlier", sig=dict(scale=True, raised=type(e).__name__),
+                             detail=dict(message=str(e)[:200], merged_keys=merged)))
+    except Exception as e:
+        import traceback
+        viol.append(dict(kind="operation-raised", sig=dict(scale=True, exc=type(e).__name__), detail=dict(message=str(e)[:300], traceback=traceback.format_exc()[-800:])))
+    finally:
+        dbutil.close_db(db)
+    return dict(status="violation" if viol else "ok", key=None, violations=viol, info=dict(scale="sources longer than the peek window"))
+
+
 _FRESH = {}
 QUICK_POPULATE_ALL = False      # set by run(): thorough populates before every operation, quick before the last one
 
 
 def run_history(h, wdir, tag="bfs"):
     if isinstance(tag, tuple) and tag[0] == "scale":
-        return run_scale(wdir)
+        return run_scale(wdir) if tag[1] == "delete1000" else run_scale2(wdir)
     _clean(wdir)
     if not h:
         return dict(status="ok", key="root", violations=[], info=dict(root=True))
@@ -447,7 +502,7 @@ def run(tier, seed):
     QUICK_POPULATE_ALL = tier != "quick"
 
     def extra(reps):
-        items = [(("scale", "delete1000"), ("I:chain",))]
+        items = [(("scale", "delete1000"), ("I:chain",)), (("scale", "long-sources"), ("I:chain",))]
         for d in (1, 2, 3):
             for h in reps.get(d, []):
                 for b in (("G2", "G3") if h and h[0] == "I:gtf" else ("B1", "B2", "B3", "B4")):
